@@ -291,6 +291,12 @@ class C13:
                     # negatives
                     lines = []; labs = []
                     def neg(l, k): lines.append(l); labs.append("neg:" + k); cnt(k)
+                    # a NEGATIVE exponent with the inverse of v (no secret key needed: (v^-1)^(-e) = v^e), and negated components one at a time
+                    try: vinv = pow(sig[2], -1, N)
+                    except ValueError: vinv = None
+                    if vinv is not None:
+                        neg(vline(x, msgs, [-sig[0], sig[1], vinv]), "negated-e-inverted-v")
+                    neg(vline(x, msgs, [-sig[0], sig[1], sig[2]]), "negated-e"); neg(vline(x, msgs, [sig[0], -sig[1], sig[2]]), "negated-s"); neg(vline(x, msgs, [sig[0], sig[1], -sig[2]]), "negated-v")
                     for i in range(n):
                         m2 = list(msgs); m2[i] ^= 1 << rng.randrange(256); neg(vline(x, m2, sig), "attribute-changed")
                         for k in (1, -1, 2):
